@@ -1988,8 +1988,8 @@ def proximal_huber(space, gamma):
             out[mask] = gamma / (gamma + self.sigma) * x[mask]
 
             mask.ufuncs.logical_not(out=mask)
-            sign_x = x.ufuncs.sign()
-            out[mask] = x[mask] - self.sigma * sign_x[mask]
+            shrunk = x - self.sigma * x.ufuncs.sign()
+            out[mask] = shrunk[mask]
 
             return out
 
